@@ -29,6 +29,17 @@ SEEDS = {
  "s2-C18": ("C18", ["C18"], "primary without any paths section + the same id in two different mixins"),
  "s2-C19": ("C19", ["C19"], "document without paths + shared responses lacking a description"),
  "s2-C20": ("C20", ["C20"], "a $ref to an object with a discriminator (IsBaseType lost through the $ref)"),
+ "s3-C03c": ("C03", ["C03", "C20"], "tuples with additionalItems classified as arrays (two cooperating edits in schema.go): stay inline after full flatten"),
+ "s3-C05c": ("C05", ["C05"], "Expand + remote self-recursive definition referring twice to a $ref-free remote definition whose name collides with a root definition"),
+ "s3-C08c": ("C08", ["C08", "C02"], "a pointer whose simple target (array/map) itself holds a pointer, each with a single caller: pointers nested in pointer targets are W+ (outside W)"),
+ "s3-C10c": ("C10", ["C10"], "any anonymous pointer that goes through flattenAnonPointer: Flatten re-assigns its own copy of opts.Spec"),
+ "s3-C11c": ("C11", ["C11"], "a path item that has both a $ref and sibling operations/parameters holding $refs"),
+ "s3-C13c": ("C13", ["C13", "C12"], "property names containing '/' or '~' (escaped twice) with a pattern/enum at or below them"),
+ "s3-C14c": ("C14", ["C14"], "a requirement combining several schemes one of which already appeared in an earlier alternative"),
+ "s3-C15c": ("C15", ["C15"], "a parameter carrying an x-go-name extension overlapping another one by (in, name), or clashing by derived name"),
+ "s3-C16c": ("C16", ["C16"], "pure data race: parameter $ref resolution memoised in a map shared by all readers of one Spec"),
+ "s3-C17c": ("C17", ["C17"], "a mixin security requirement that is a strict superset of one already merged (or an empty requirement in the primary)"),
+ "s3-C20c": ("C20", ["C20", "C03"], "object with properties/allOf and the boolean additionalProperties: true"),
 }
 only = set(sys.argv[1:])
 res_path = os.path.join(HERE, "seeded", "results.json")
